@@ -146,3 +146,102 @@ def verify(prop='C06'):
         for vv in out[-4:]:
             vv.seconds = dt / 4
     return out
+
+
+# ---- molecular Hamiltonians (C07): optimized construction with symbolic coefficient tensors ---------------------------
+
+def capture_opchains(ham, ctor, args, kwargs):
+    """run the real constructor until it calls OpGraph.from_opchains; return (chains, length, oid_identity)"""
+    box = {}
+    OG = ham.OpGraph
+    orig = OG.__dict__['from_opchains']
+    def rec(cls, chains, length, oid_identity):
+        box.update(chains=list(chains), L=length, oid=oid_identity)
+        raise _Captured()
+    OG.from_opchains = classmethod(rec)
+    try:
+        try:
+            getattr(ham, ctor)(*args, **kwargs)
+        except _Captured:
+            pass
+    finally:
+        OG.from_opchains = orig
+    return box
+
+
+def verify_molecular():
+    import sympy
+    from .runtime import h_ham
+    out = []
+    ptn, ham = _load_pytenet()
+    cases = [('molecular_hamiltonian_mpo', L, ham._molecular_hamiltonian_generate_operator_map, h_ham.molecular_ref, 2) for L in (1, 2, 3, 4)] + \
+            [('spin_molecular_hamiltonian_mpo', L, ham._spin_molecular_hamiltonian_generate_operator_map, h_ham.spin_molecular_ref, 4) for L in (1, 2, 3)]
+    for ctor, L, opmap_f, ref, dloc in cases:
+        fn = f'hamiltonian.{ctor}'
+        t0 = time.time()
+        name = f'{ctor}[optimize=True, L={L}]'
+        try:
+            tsym = np.empty((L, L), dtype=object); vsym = np.empty((L, L, L, L), dtype=object)
+            syms = []
+            for i in range(L):
+                for j in range(L):
+                    tsym[i, j] = sympy.Symbol(f't_{i}_{j}'); syms.append(('t', (i, j), tsym[i, j]))
+            for idx in np.ndindex(L, L, L, L):
+                vsym[idx] = sympy.Symbol('v_' + '_'.join(map(str, idx))); syms.append(('v', idx, vsym[idx]))
+            box = capture_opchains(ham, ctor, (tsym, vsym), dict(optimize=True))
+            if not box:
+                out.append(Verdict(f'{name}: chains captured', 'S', 'undecided', 'constructor no longer calls OpGraph.from_opchains (contract stale)', 0, fn, 'ensures', 'sympy'))
+                continue
+            chains, oid = box['chains'], box['oid']
+            opmap = opmap_f()
+            allsyms = [s for _, _, s in syms]
+            # (1) coefficients are homogeneous linear forms in the coefficient-tensor entries
+            lin = True; why = ''
+            coeffs = []
+            for ch in chains:
+                c = sympy.expand(sympy.sympify(ch.coeff))
+                coeffs.append(c)
+                if c == 0:
+                    continue
+                poly = sympy.Poly(c, *c.free_symbols) if c.free_symbols else None
+                if poly is None or poly.total_degree() > 1 or c.subs({s: 0 for s in c.free_symbols}) != 0:
+                    lin = False; why = f'coefficient {c} is not a homogeneous linear form'
+            out.append(Verdict(f'{name}: chain coefficients are linear forms in (tkin, vint)', 'S', 'discharged' if lin else 'refuted', why or f'{len(chains)} chains', 0, fn, 'ensures', 'sympy'))
+            # (2) equality with the second-quantized reference at every basis tensor  =>  for all coefficient tensors
+            ok = True; worst = 0.0; where = ''
+            dim = dloc ** L
+            Id = np.asarray(opmap[oid])
+            # dense matrix of every chain word once
+            words = []
+            for ch in chains:
+                ops = [Id] * ch.istart + [np.asarray(opmap[o]) for o in ch.oids] + [Id] * (L - ch.istart - len(ch.oids))
+                m = np.ones((1, 1))
+                for o in ops:
+                    m = np.kron(m, o)
+                words.append(m)
+            for kind, idx, s in syms:
+                t = np.zeros((L, L)); v = np.zeros((L, L, L, L))
+                if kind == 't':
+                    t[idx] = 1.0
+                else:
+                    v[idx] = 1.0
+                H = np.zeros((dim, dim), dtype=complex)
+                for c, m in zip(coeffs, words):
+                    if c != 0 and s in c.free_symbols:
+                        H = H + complex(c.coeff(s)) * m
+                Hr = np.asarray(ref(t, v), dtype=complex)
+                err = float(np.linalg.norm(H - Hr))
+                worst = max(worst, err)
+                if err > 1e-12 * max(1.0, float(np.linalg.norm(Hr))):
+                    ok = False; where = f'd/d{s}: |chains - second-quantized formula| = {err:.3e}'
+                    break
+            v_ = Verdict(f'{name}: sum of the chains equals the second-quantized formula for every coefficient tensor (linearity + all {len(syms)} basis tensors)', 'S',
+                         'discharged' if ok else 'refuted', where + (' (needs native confirmation)' if not ok else f'max deviation {worst:.1e}'), 0, fn, 'ensures', 'sympy+numpy')
+            v_.confirm = [ctor]
+            out.append(v_)
+        except Exception as e:
+            out.append(Verdict(f'{name}: symbolic execution', 'S', 'undecided', f'{type(e).__name__}: {e}', 0, fn, 'ensures', 'sympy'))
+        dt = time.time() - t0
+        for vv in out[-2:]:
+            vv.seconds = dt / 2
+    return out
